@@ -19,14 +19,25 @@ DRIVERS = ["driver_core"]
 RULE = ("random runs: 1..3 markets (minutely, hourly, hourly option book with 2..80 rows per timestamp — sometimes more rows than the longest market has "
         "minutes —, with gaps, starting late / ending early), bar interval 1/2/3/5/7/15/45/60 min (string forms "
         "'1min', 'min', '5min', '1h', 'h'), 1..400 bars, price frame covering / not covering the data, 0..3 time triggers, scripted strategy "
-        "issuing accepted and refused operations from initialize / before_bar / trigger actions / open callbacks / on_bar / after_bar and from "
-        "inside notify() (answers to delivered actions, up to three levels deep, also on the last bar) and markets whose update() records actions; "
-        "fixed cases: minutely market + 2 h x 80-row book, 2-3 markets with a write only on a later-registered one, answers from notify(); bucket = (interval class, market mix, bars class, phases with operations, second refresh seen, "
-        "closed-market rejection seen, outcome)")
+        "whose hooks (initialize / before_bar / trigger actions / open callbacks / on_bar / after_bar / notify) run statement lists: accepted and "
+        "refused operations (from inside notify() too: answers to delivered actions, up to three levels deep, also on the last bar), "
+        "strategy.triggers.append of a new trigger / remove of an installed one (from trigger actions while the loop iterates the list, and "
+        "between loops), raise of HookError / HookRuntimeError / DemeterError at a random place of a random hook on a random bar (first, last, "
+        "middle), and markets whose update() records actions; after a run (failed or not) the same Actuator and strategy object run again; "
+        "fixed cases: minutely market + 2 h x 80-row book, 2-3 markets with a write only on a later-registered one, answers from notify(), a raise "
+        "in each of the seven hooks x bar {0, 2, 3, 5} x class, self-removing / installing / earlier-removing trigger actions; a run that a hook "
+        "ended is judged against a fresh run of the same strategy without the raise (calls, account history, actions: prefixes; second run: equal); "
+        "bucket = (interval class, market mix, bars class, phases with operations, second refresh seen, closed-market rejection seen, outcome, "
+        "hook that raised, list changes, second run)")
 TRUSTED = ["pandas resample/loc internals are exercised, not modelled: the model's resampled index and 'first row of the bin' rule are compared with what pandas produced on every run",
-           "the concrete markets' own set_market_status/update bodies are the subject of other properties; here they are abstract (ProbeMarket in harness/core_lib.py)"]
-ASSUMPTIONS = ["hooks do not raise (the scripted strategy catches the exception of a refused operation) and do not replace strategy.triggers",
-               "a notify() hook that answers every delivery with a new accepted operation never returns (the code iterates the live list): generated scripts answer at most three levels deep",
+           "the concrete markets' own set_market_status/update bodies are the subject of other properties; here they are abstract (ProbeMarket in harness/core_lib.py)",
+           "what the `except RuntimeError` handler of the bar loop does besides re-raising (print, _generate_account_status_df, save_result into the working "
+           "directory) is observed, not modelled, except for its one visible effect on the outcome: IndexError when no account row exists yet"]
+ASSUMPTIONS = ["a scripted hook catches the refusal of its own operations; what it does not catch is a scripted raise (any statement position, three exception classes)",
+               "hooks change strategy.triggers in place with append (a new object) / remove (an installed object); list.insert and rebinding the attribute while "
+               "the trigger loop runs are not modelled",
+               "a notify() hook that answers every delivery with a new accepted operation, or trigger actions that keep installing triggers that fire at once, "
+               "never return (the code iterates the live lists): generated scripts answer at most three levels deep",
                "frames have a non-decreasing time index (several rows per timestamp allowed: an option book)"]
 
 INTERVALS = ((1, "1min"), (1, "1min"), (1, "min"), (5, "5min"), (5, "5min"), (15, "15min"), (60, "1h"), (60, "h"), (60, "60min"),
